@@ -9,7 +9,7 @@ import time
 import traceback
 
 from . import audit as audit_mod
-from .common import Ctx, InfraError, write_evidence
+from .common import CorrespondenceBroken, Ctx, InfraError, write_evidence
 
 
 def main(argv):
@@ -38,6 +38,8 @@ def main(argv):
             mod.replay(ctx, json.load(open(replay)))
         else:
             mod.run(ctx, model_ok=os.path.exists(audit_mod.os.path.join(audit_mod.LEAN_DIR, ".lake", "build", "bin", "toqdriver")) and "lake build failed" not in " ".join(aud["problems"]))
+    except CorrespondenceBroken as e:
+        ctx.broken.append(str(e))
     except InfraError as e:
         print(f"infrastructure failure: {e}")
         traceback.print_exc()
@@ -48,6 +50,12 @@ def main(argv):
     if not proof_ok and not ctx.violations:
         # a proof obligation no longer checks and the search found no failing input
         ctx.unproved("proof obligations of " + pid + " no longer check: " + "; ".join(aud["problems"])[:1500], {"problems": aud["problems"], "theorems": aud["theorems"]})
+    if ctx.broken:
+        uniq = sorted(set(ctx.broken))
+        print(f"correspondence broken ({len(ctx.broken)} instances): {uniq[0][:300]}")
+        if not ctx.violations:
+            # the implementation no longer has the modelled structure and the search found no failing input
+            ctx.unproved("correspondence of " + pid + " no longer checks: " + " | ".join(uniq)[:1500], {"correspondence": uniq[:20], "count": len(ctx.broken)})
     write_evidence(ctx, aud, getattr(mod, "RULE", ""), getattr(mod, "ASSUMPTIONS", []))
     n_viol = len(ctx.violations)
     print(f"{pid} {tier} seed={seed}: theorems {aud['discharged']}/{aud['obligations']} evaluations={ctx.evaluations} "
